@@ -1,362 +1,782 @@
+"""Witnesses of C01 (text edits of adcgen files; expect = rule id(s) for breaking edits, None for behaviour-preserving
+ones). Regenerated as data in round 5 (anchors re-based on /repo 56d0b4d)."""
 F = "func.py"
-WITNESSES = [
-    dict(id="c01-table-general", prop="C01", file=F, expect="R01a",
-         old="""        elif space_p == "v" or space_q == "v":
-            return KroneckerDelta(p_idx, q_idx)
-        else:
-            return (KroneckerDelta(p_idx, q_idx) *
-                    KroneckerDelta(q_idx, Index('a', above_fermi=True)))""",
-         new="""        else:
-            return KroneckerDelta(p_idx, q_idx)"""),
-    dict(id="c01-table-swap-fermi", prop="C01", file=F, expect="R01a",
-         old="KroneckerDelta(q_idx, Index('i', below_fermi=True))",
-         new="KroneckerDelta(q_idx, Index('i', above_fermi=True))"),
-    dict(id="c01-table-and", prop="C01", file=F, expect="R01a",
-         old="""        if space_p == "v" or space_q == "v":
-            return S.Zero""",
-         new="""        if space_p == "v" and space_q == "v":
-            return S.Zero"""),
-    dict(id="c01-spin-guard", prop="C01", file=F, expect="R01a",
-         old="if p.state.spin or q.state.spin:", new="if p.state.spin and q.state.spin:"),
-    dict(id="c01-sign-inverted", prop="C01", file=F, expect="R01b",
-         old="if not i % 2:  # introduce", new="if i % 2:  # introduce"),
-    dict(id="c01-remaining-off", prop="C01", file=F, expect="R01b",
-         old="remaining = op_string[1:i] + op_string[i+1:]",
-         new="remaining = op_string[1:i] + op_string[i:]"),
-    dict(id="c01-range-short", prop="C01", file=F, expect="R01b",
-         old="for i in range(1, len(op_string)):", new="for i in range(1, len(op_string) - 1):"),
-    dict(id="c01-prefilter-general", prop="C01", file=F, expect="R01c",
-         old='n_annihilate = annihilate[space] + annihilate["general"]',
-         new='n_annihilate = annihilate[space]'),
-    dict(id="c01-prefilter-ge", prop="C01", file=F, expect="R01c",
-         old="if n_create - n_annihilate > 0:", new="if n_create - n_annihilate >= 0:"),
-    dict(id="c01-rules-name-only", prop="C01", file="rules.py", expect="R01d",
-         old="""            if any(obj.name in self._forbidden_blocks
-                   and obj.space in self._forbidden_blocks[obj.name]
-                   for obj in term.objects):""",
-         new="""            if any(obj.name in self._forbidden_blocks
-                   for obj in term.objects):"""),
-    dict(id="c01-rules-all", prop="C01", file="rules.py", expect="R01d",
-         old="            if any(obj.name in self._forbidden_blocks", new="            if all(obj.name in self._forbidden_blocks"),
-    dict(id="c01-wicks-cpart-dropped", prop="C01", file=F, expect="R01d",
-         old="result = (Mul(*c_part) * result).expand()", new="result = result.expand()"),
-    dict(id="c01-f11-revert", prop="C01", file=F, expect="R01d",
-         old="    else:  # neither add, Mul, NO or Operator -> maybe a number or a tensor\n        result = expr",
-         new="    else:  # neither add, Mul, NO or Operator -> maybe a number or a tensor\n        return expr"),
-    dict(id="c01-remove-by-value", prop="C01", file=F, expect="R01b",
-         old="            remaining = op_string[1:i] + op_string[i+1:]",
-         new="            remaining = list(op_string[1:])\n            remaining.remove(op_string[i])"),
-    # behaviour preserving
-    dict(id="c01-ok-rename", prop="C01", file=F, expect=None,
-         old="""        c = _contraction(op_string[0], op_string[i])
-        if c is S.Zero:
-            continue
-        if not i % 2:  # introduce -1 for swapping operators
-            c *= S.NegativeOne""",
-         new="""        contr = _contraction(op_string[0], op_string[i])
-        if contr is S.Zero:
-            continue
-        if i % 2 == 0:
-            contr = contr * S.NegativeOne
-        c = contr"""),
-    dict(id="c01-ok-table-reorder", prop="C01", file=F, expect=None,
-         old="""        if space_p == "o" or space_q == "o":
-            return S.Zero
-        elif space_p == "v" or space_q == "v":
-            return KroneckerDelta(p_idx, q_idx)""",
-         new="""        if "o" in (space_p, space_q):
-            return S.Zero
-        elif space_q == "v" or space_p == "v":
-            return KroneckerDelta(q_idx, p_idx)"""),
-    dict(id="c01-ok-rules-loop", prop="C01", file="rules.py", expect=None,
-         old="""            if any(obj.name in self._forbidden_blocks
-                   and obj.space in self._forbidden_blocks[obj.name]
-                   for obj in term.objects):
-                continue
-            res += term""",
-         new="""            forbidden = any(obj.name in self._forbidden_blocks
-                            and obj.space in self._forbidden_blocks[obj.name]
-                            for obj in term.objects)
-            if not forbidden:
-                res += term"""),
-    # ---- breaking witnesses for the checks introduced with the semantic re-foundation
-    dict(id="c01-contraction-args-swapped", prop="C01", file=F, expect=["R01b", "R01e"],
-         old="c = _contraction(op_string[0], op_string[i])", new="c = _contraction(op_string[i], op_string[0])"),
-    dict(id="c01-opstring-reversed", prop="C01", file=F, expect=["R01d", "R01e"],
-         old="                op_string.append(factor)", new="                op_string.insert(0, factor)"),
-    dict(id="c01-fresh-index-unrestricted", prop="C01", file=F, expect="R01a",
-         old="KroneckerDelta(q_idx, Index('a', above_fermi=True))", new="KroneckerDelta(q_idx, Index('a'))"),
-    dict(id="c01-fresh-delta-only", prop="C01", file=F, expect="R01a",
-         old="""            return (KroneckerDelta(p_idx, q_idx) *
-                    KroneckerDelta(q_idx, Index('i', below_fermi=True)))""",
-         new="""            return KroneckerDelta(q_idx, Index('i', below_fermi=True))"""),
-    dict(id="c01-zero-break", prop="C01", file=F, expect="R01b",
-         old="""        if c is S.Zero:
-            continue""",
-         new="""        if c is S.Zero:
-            break"""),
-    dict(id="c01-e2e-prefilter-substring", prop="C01", file=F, expect="R01e",
-         old="    if not _has_fully_contracted_contribution(op_string):",
-         new="    if not _has_fully_contracted_contribution(op_string[1:]):"),
-    dict(id="c01-rules-assumptions-lost", prop="C01", file="rules.py", expect="R01d",
-         old="res = e.Expr(0, **expr.assumptions)", new="res = e.Expr(0)"),
-    dict(id="c01-rules-inverted", prop="C01", file="rules.py", expect="R01d",
-         old="            if any(obj.name in self._forbidden_blocks", new="            if not any(obj.name in self._forbidden_blocks"),
-    dict(id="c01-rules-term-twice", prop="C01", file="rules.py", expect="R01d",
-         old="            res += term", new="            res += term\n            res += term"),
-    dict(id="c01-rules-guard-removed", prop="C01", file="rules.py", expect="R01d",
-         old="        if not isinstance(expr, e.Expr):\n            raise TypeError(f\"Expression needs to be provided as {e.Expr}\")\n",
-         new=""),
-    dict(id="c01-rules-empty-none-only", prop="C01", file="rules.py", expect="R01d",
-         old="return not bool(self._forbidden_blocks)", new="return self._forbidden_blocks is None"),
-    dict(id="c01-wicks-flag-ignored", prop="C01", file=F, expect="R01d",
-         old="            if simplify_kronecker_deltas:\n                result = evaluate_deltas(result)",
-         new="            result = evaluate_deltas(result)"),
-    dict(id="c01-wicks-deltas-after-rules", prop="C01", file=F, expect="R01d",
-         edits=[("            if simplify_kronecker_deltas:\n                result = evaluate_deltas(result)\n", ""),
-                ("    return rules.apply(Expr(result)).sympy",
-                 "    result = rules.apply(Expr(result)).sympy\n    if simplify_kronecker_deltas:\n"
-                 "        result = evaluate_deltas(result)\n    return result")]),
-    dict(id="c01-wicks-doit-plain", prop="C01", file=F, expect="R01d",
-         old="expr = expr.doit(wicks=True).expand()", new="expr = expr.doit().expand()"),
-    dict(id="c01-wicks-add-drops-rules", prop="C01", file=F, expect="R01d",
-         old="        return Add(*[wicks(term, rules=rules,\n                           simplify_kronecker_deltas=simplify_kronecker_deltas)",
-         new="        return Add(*[wicks(term,\n                           simplify_kronecker_deltas=simplify_kronecker_deltas)"),
-    dict(id="c01-wicks-add-skips-first", prop="C01", file=F, expect="R01d",
-         old="                     for term in expr.args])", new="                     for term in expr.args[1:]])"),
-    dict(id="c01-wicks-rules-real", prop="C01", file=F, expect="R01d",
-         old="return rules.apply(Expr(result)).sympy", new="return rules.apply(Expr(result, real=True)).sympy"),
-    dict(id="c01-wicks-target-idx", prop="C01", file=F, expect="R01d",
-         old="                result = evaluate_deltas(result)", new="                result = evaluate_deltas(result, '')"),
-    dict(id="c01-wicks-cpart-twice", prop="C01", file=F, expect="R01d",
-         old="result = (Mul(*c_part) * result).expand()", new="result = (Mul(*c_part) * Mul(*c_part) * result).expand()"),
-    # ---- behaviour preserving, kinds not in the refactoring corpus
-    # table-driven dispatch instead of an if-tree
-    dict(id="c01-ok-table-driven", prop="C01", file=F, expect=None,
-         old="""    if isinstance(p, F) and isinstance(q, Fd):
-        if space_p == "o" or space_q == "o":
-            return S.Zero
-        elif space_p == "v" or space_q == "v":
-            return KroneckerDelta(p_idx, q_idx)
-        else:
-            return (KroneckerDelta(p_idx, q_idx) *
-                    KroneckerDelta(q_idx, Index('a', above_fermi=True)))
-    elif isinstance(p, Fd) and isinstance(q, F):
-        if space_p == "v" or space_q == "v":
-            return S.Zero
-        elif space_p == "o" or space_q == "o":
-            return KroneckerDelta(p_idx, q_idx)
-        else:
-            return (KroneckerDelta(p_idx, q_idx) *
-                    KroneckerDelta(q_idx, Index('i', below_fermi=True)))
-    else:  # vanish if 2xAnnihilator or 2xCreator
-        return S.Zero""",
-         new="""    table = {(True, False): ("o", "v", "a", {"above_fermi": True}),
-             (False, True): ("v", "o", "i", {"below_fermi": True})}
-    entry = table.get((isinstance(p, F), isinstance(q, F)))
-    if entry is None or isinstance(p, F) == isinstance(p, Fd) or isinstance(q, F) == isinstance(q, Fd):
-        return S.Zero
-    killed, kept, fresh_name, fresh_assumptions = entry
-    spaces = (space_p, space_q)
-    if killed in spaces:
-        return S.Zero
-    contraction = KroneckerDelta(p_idx, q_idx)
-    if kept not in spaces:
-        contraction = contraction * KroneckerDelta(q_idx, Index(fresh_name, **fresh_assumptions))
-    return contraction"""),
-    # algebraically equal expression: factors commuted, delta arguments swapped, the projector on the other index
-    dict(id="c01-ok-delta-algebra", prop="C01", file=F, expect=None,
-         old="""            return (KroneckerDelta(p_idx, q_idx) *
-                    KroneckerDelta(q_idx, Index('a', above_fermi=True)))""",
-         new="""            return (KroneckerDelta(Index('a', above_fermi=True), p_idx) *
-                    KroneckerDelta(q_idx, p_idx))"""),
-    # loop-carried sign instead of the parity of the loop index
-    dict(id="c01-ok-running-sign", prop="C01", file=F, expect=None,
-         old="""    for i in range(1, len(op_string)):
-        c = _contraction(op_string[0], op_string[i])
-        if c is S.Zero:
-            continue
-        if not i % 2:  # introduce -1 for swapping operators
-            c *= S.NegativeOne
-""",
-         new="""    sign = S.NegativeOne
-    for i in range(1, len(op_string)):
-        sign = -sign
-        c = sign * _contraction(op_string[0], op_string[i])
-        if c is S.Zero:
-            continue
-"""),
-    # remaining operators selected by an index filter instead of two slices
-    dict(id="c01-ok-remaining-filter", prop="C01", file=F, expect=None,
-         old="remaining = op_string[1:i] + op_string[i+1:]",
-         new="remaining = [op for pos, op in enumerate(op_string) if pos not in (0, i)]"),
-    # running sum instead of collecting the summands for Add(*..)
-    dict(id="c01-ok-running-sum", prop="C01", file=F, expect=None,
-         edits=[("    result = []\n    for i in range(1, len(op_string)):", "    result = S.Zero\n    for i in range(1, len(op_string)):"),
-                ("            result.append(c * _contract_operator_string(remaining))",
-                 "            result += c * _contract_operator_string(remaining)"),
-                ("            result.append(c)\n    return Add(*result)", "            result += c\n    return result")]),
-    # other data structure and a closed formula in the prefilter
-    dict(id="c01-ok-prefilter-keyed-counts", prop="C01", file=F, expect=None,
-         old="""    create = {space: 0 for space in Indices.base.keys()}
-    annihilate = {space: 0 for space in Indices.base.keys()}
-    for op in op_string:
-        if isinstance(op, Fd):
-            counter = create
-        else:
-            counter = annihilate
-        counter[op.args[0].space] += 1
-    # check that we have a matching amount of creation and annihilation
-    # operators
-    for space, n_create in create.items():
-        if space == "general":
-            continue
-        n_annihilate = annihilate[space] + annihilate["general"]
-        if n_create - n_annihilate > 0:
-            return False
-    return True""",
-         new="""    counts = {}
-    for op in op_string:
-        key = (isinstance(op, Fd), op.args[0].space)
-        counts[key] = counts.get(key, 0) + 1
-    n_general = counts.get((False, "general"), 0)
-    return all(counts.get((True, space), 0) <= counts.get((False, space), 0) + n_general
-               for space in Indices.base if space != "general")"""),
-    # forbidden (name, block) pairs collected once (the correct version of the optimisation seeded as C01-1)
-    dict(id="c01-ok-rules-pair-set", prop="C01", file="rules.py", expect=None,
-         old="""        res = e.Expr(0, **expr.assumptions)
-        for term in expr.terms:
-            # remove the forbidden blocks of tensors
-            if any(obj.name in self._forbidden_blocks
-                   and obj.space in self._forbidden_blocks[obj.name]
-                   for obj in term.objects):
-                continue
-            res += term
-        return res""",
-         new="""        forbidden = {(name, block) for name, blocks in self._forbidden_blocks.items() for block in blocks}
-        kept = [term for term in expr.terms
-                if not any((obj.name, obj.space) in forbidden for obj in term.objects)]
-        res = e.Expr(0, **expr.assumptions)
-        for term in kept:
-            res += term
-        return res"""),
-    dict(id="c01-ok-is-empty-explicit", prop="C01", file="rules.py", expect=None,
-         old="return not bool(self._forbidden_blocks)",
-         new="return self._forbidden_blocks is None or len(self._forbidden_blocks) == 0"),
-    # wicks: explicit accumulation for Add, partition by two comprehensions, Mul flattening, reordered exits
-    dict(id="c01-ok-wicks-restructured", prop="C01", file=F, expect=None,
-         edits=[("""        return Add(*[wicks(term, rules=rules,
-                           simplify_kronecker_deltas=simplify_kronecker_deltas)
-                     for term in expr.args])""",
-                 """        total = S.Zero
-        for term in expr.args:
-            total += wicks(term, rules, simplify_kronecker_deltas)
-        return total"""),
-                ("""        c_part = []
-        op_string = []
-        for factor in expr.args:
-            if factor.is_commutative:
-                c_part.append(factor)
-            else:
-                op_string.append(factor)
-""",
-                 """        c_part = [factor for factor in expr.args if factor.is_commutative]
-        op_string = [factor for factor in expr.args if not factor.is_commutative]
-"""),
-                ("result = (Mul(*c_part) * result).expand()", "result = Mul(*c_part, result).expand()"),
-                ("""    if rules is None:
-        return result
-    elif not isinstance(rules, Rules):
-        raise TypeError(f"Rules needs to be of type {Rules}")
-
-    return rules.apply(Expr(result)).sympy""",
-                 """    if rules is not None:
-        if not isinstance(rules, Rules):
-            raise TypeError(f"Rules needs to be of type {Rules}")
-        restricted = rules.apply(Expr(result))
-        result = restricted.sympy
-    return result""")]),
-    # spaces compared by their full names
-    dict(id="c01-ok-full-space-names", prop="C01", file=F, expect=None,
-         edits=[("""    space_p, space_q = p_idx.space[0], q_idx.space[0]
-    assert space_p in ["o", "v", "g"] and space_q in ["o", "v", "g"]""",
-                 """    space_p, space_q = {"occ": "o", "virt": "v", "general": "g"}[p_idx.space], q_idx.space[:1]
-    assert {space_p, space_q} <= set("ovg")""")]),
-    # the dual counting criterion (creators and annihilators exchanged) is a necessary condition as well: the
-    # prefilter answers differently on some strings, never False for a string with a complete contraction
-    dict(id="c01-ok-prefilter-dual", prop="C01", file=F, expect=None,
-         old="        if isinstance(op, Fd):\n            counter = create", new="        if isinstance(op, F):\n            counter = create"),
-    # sign applied before the zero test, zero test by value
-    dict(id="c01-ok-zero-via-mul", prop="C01", file=F, expect=None,
-         old="""        if c is S.Zero:
-            continue
-        if not i % 2:  # introduce -1 for swapping operators
-            c *= S.NegativeOne""",
-         new="""        if not i % 2:  # introduce -1 for swapping operators
-            c = -c
-        if c == 0:
-            continue"""),
-    # for/else with try/except instead of any(..)
-    dict(id="c01-ok-rules-try-for-else", prop="C01", file="rules.py", expect=None,
-         old="""            if any(obj.name in self._forbidden_blocks
-                   and obj.space in self._forbidden_blocks[obj.name]
-                   for obj in term.objects):
-                continue
-            res += term""",
-         new="""            for obj in term.objects:
-                try:
-                    blocks = self._forbidden_blocks[obj.name]
-                except KeyError:
-                    continue
-                if obj.space in blocks:
-                    break
-            else:
-                res += term"""),
-    # early exit when the contraction vanishes (zero needs no rules)
-    dict(id="c01-ok-wicks-early-zero", prop="C01", file=F, expect=None,
-         old="            result = _contract_operator_string(op_string)\n",
-         new="            result = _contract_operator_string(op_string)\n            if result is S.Zero:\n                return S.Zero\n"),
-    # starred unpacking and a while loop
-    dict(id="c01-ok-first-rest-while", prop="C01", file=F, expect=None,
-         old="    result = []\n    for i in range(1, len(op_string)):\n        c = _contraction(op_string[0], op_string[i])",
-         new="    result = []\n    first, *rest = op_string\n    i = 0\n    while i < len(rest):\n        i += 1\n"
-             "        c = _contraction(first, rest[i - 1])"),
-    # the Fd/F row tested with `and`: (occ, general) now takes the projector branch, delta_pq * [q occupied], which has
-    # the same value because p is occupied
-    dict(id="c01-ok-table-redundant-projector", prop="C01", file=F, expect=None,
-         old='        elif space_p == "o" or space_q == "o":\n            return KroneckerDelta(p_idx, q_idx)',
-         new='        elif space_p == "o" and space_q == "o":\n            return KroneckerDelta(p_idx, q_idx)'),
-    dict(id="c01-is-empty-never", prop="C01", file="rules.py", expect="R01d",
-         old="return not bool(self._forbidden_blocks)", new="return False"),
-    # a single operator handled by the general branch: the contraction of a string of odd length vanishes (prefilter),
-    # so the value is still zero
-    dict(id="c01-ok-wicks-single-op-general-branch", prop="C01", file=F, expect=None,
-         old="        elif n == 1:  # a single operator\n            return S.Zero\n", new=""),
-    dict(id="c01-wicks-bare-operator", prop="C01", file=F, expect="R01d",
-         old="    if isinstance(expr, (NO, FermionicOperator)):\n        return S.Zero\n",
-         new="    if isinstance(expr, NO):\n        return S.Zero\n"),
-    dict(id="c01-prefilter-skips-first", prop="C01", file=F, expect=["R01c", "R01e"],
-         old="    for op in op_string:\n        if isinstance(op, Fd):", new="    for op in op_string[1:]:\n        if isinstance(op, Fd):"),
-    dict(id="c01-partition-swapped", prop="C01", file=F, expect=["R01d", "R01e"],
-         old="            if factor.is_commutative:\n                c_part.append(factor)",
-         new="            if not factor.is_commutative:\n                c_part.append(factor)"),
-    # ---- round 4: screening by contraction partners (type(..) is type(..) over the operator classes), objects of a
-    # term modelled as expr_container.Obj around the four tensor classes / deltas / symbols / numbers
-    dict(id="c01-prefilter-partner-particle-test", prop="C01", file=F, expect=["R01c", "R01e"],
-         old='        if n_create - n_annihilate > 0:\n            return False\n    return True\n', new='        if n_create - n_annihilate > 0:\n            return False\n    # each operator needs at least one operator it can be contracted with\n    return all(_has_contraction_partner(op_string, pos)\n               for pos in range(len(op_string)))\n\n\ndef _has_contraction_partner(op_string, pos: int) -> bool:\n    op = op_string[pos]\n    for other_pos, other in enumerate(op_string):\n        if type(other) is type(op):  # 2xCreator, 2xAnnihilator or op itself\n            continue\n        left, right = (op, other) if pos < other_pos else (other, op)\n        spaces = {left.args[0].space, right.args[0].space}\n        if isinstance(left, Fd):  # hole contraction: no virtual index\n            if "virt" not in spaces:\n                return True\n        elif "virt" in spaces:  # particle contraction: no occupied index\n            return True\n    return False\n'),
-    dict(id="c01-ok-prefilter-partner", prop="C01", file=F, expect=None,
-         old='        if n_create - n_annihilate > 0:\n            return False\n    return True\n', new='        if n_create - n_annihilate > 0:\n            return False\n    # each operator needs at least one operator it can be contracted with\n    return all(_has_contraction_partner(op_string, pos)\n               for pos in range(len(op_string)))\n\n\ndef _has_contraction_partner(op_string, pos: int) -> bool:\n    op = op_string[pos]\n    for other_pos, other in enumerate(op_string):\n        if type(other) is type(op):  # 2xCreator, 2xAnnihilator or op itself\n            continue\n        left, right = (op, other) if pos < other_pos else (other, op)\n        spaces = {left.args[0].space, right.args[0].space}\n        if isinstance(left, Fd):  # hole contraction: no virtual index\n            if "virt" not in spaces:\n                return True\n        elif "occ" not in spaces:  # particle contraction: no occupied index\n            return True\n    return False\n'),
-    dict(id="c01-rules-type-filter-forgets-nonsym", prop="C01", file="rules.py", expect="R01d",
-         old='            if any(obj.name in self._forbidden_blocks\n                   and obj.space in self._forbidden_blocks[obj.name]\n                   for obj in term.objects):\n                continue\n            res += term\n        return res\n', new='            if self._contains_forbidden_block(term):\n                continue\n            res += term\n        return res\n\n    def _contains_forbidden_block(self, term) -> bool:\n        for obj in term.objects:\n            # only tensors have a block: skip prefactors, symbols and deltas\n            if obj.type_as_str not in ("antisymtensor", "symtensor", "amplitude"):\n                continue\n            forbidden = self._forbidden_blocks.get(obj.name, None)\n            if forbidden is not None and obj.space in forbidden:\n                return True\n        return False\n'),
-    dict(id="c01-ok-rules-type-filter", prop="C01", file="rules.py", expect=None,
-         old='            if any(obj.name in self._forbidden_blocks\n                   and obj.space in self._forbidden_blocks[obj.name]\n                   for obj in term.objects):\n                continue\n            res += term\n        return res\n', new='            if self._contains_forbidden_block(term):\n                continue\n            res += term\n        return res\n\n    def _contains_forbidden_block(self, term) -> bool:\n        for obj in term.objects:\n            # only tensors have a block: skip prefactors, symbols and deltas\n            if obj.type_as_str not in ("antisymtensor", "symtensor", "amplitude", "nonsymtensor"):\n                continue\n            forbidden = self._forbidden_blocks.get(obj.name, None)\n            if forbidden is not None and obj.space in forbidden:\n                return True\n        return False\n'),
-    dict(id="c01-ok-rules-tensor-test-by-name", prop="C01", file="rules.py", expect=None,
-         old="            if any(obj.name in self._forbidden_blocks\n",
-         new="            if any(obj.name is not None and \"tensor\" in obj.type_as_str + \"tensor\" and obj.name in self._forbidden_blocks\n"),
-    # the name read from the base object with a default: a symbol that shares the name of a restricted tensor has no
-    # block, deltas and numbers have no name
-    dict(id="c01-ok-rules-name-via-base", prop="C01", file="rules.py", expect=None,
-         old="            if any(obj.name in self._forbidden_blocks\n                   and obj.space in self._forbidden_blocks[obj.name]",
-         new="            if any(getattr(obj.base, \"name\", None) in self._forbidden_blocks\n"
-             "                   and obj.space in self._forbidden_blocks[getattr(obj.base, \"name\", None)]"),
-]
+WITNESSES = [{'id': 'c01-table-general',
+  'prop': 'C01',
+  'file': 'func.py',
+  'expect': 'R01a',
+  'old': '        elif space_p == "v" or space_q == "v":\n'
+         '            return KroneckerDelta(p_idx, q_idx)\n'
+         '        else:\n'
+         '            # use a registered generic index: its name is unique, i.e., it\n'
+         '            # can not be confused with any other index when the result is\n'
+         '            # printed (and imported again)\n'
+         '            a = Indices().get_generic_indices(virt=1)[("virt", "")][0]\n'
+         '            return (KroneckerDelta(p_idx, q_idx) *\n'
+         '                    KroneckerDelta(q_idx, a))\n',
+  'new': '        else:\n            return KroneckerDelta(p_idx, q_idx)\n'},
+ {'id': 'c01-table-swap-fermi',
+  'prop': 'C01',
+  'file': 'func.py',
+  'expect': 'R01a',
+  'old': 'i = Indices().get_generic_indices(occ=1)[("occ", "")][0]',
+  'new': 'i = Indices().get_generic_indices(virt=1)[("virt", "")][0]'},
+ {'id': 'c01-table-and',
+  'prop': 'C01',
+  'file': 'func.py',
+  'expect': 'R01a',
+  'old': '        if space_p == "v" or space_q == "v":\n            return S.Zero',
+  'new': '        if space_p == "v" and space_q == "v":\n            return S.Zero'},
+ {'id': 'c01-spin-guard',
+  'prop': 'C01',
+  'file': 'func.py',
+  'expect': 'R01a',
+  'old': 'if p.state.spin or q.state.spin:',
+  'new': 'if p.state.spin and q.state.spin:'},
+ {'id': 'c01-sign-inverted',
+  'prop': 'C01',
+  'file': 'func.py',
+  'expect': 'R01b',
+  'old': 'if not i % 2:  # introduce',
+  'new': 'if i % 2:  # introduce'},
+ {'id': 'c01-remaining-off',
+  'prop': 'C01',
+  'file': 'func.py',
+  'expect': 'R01b',
+  'old': 'remaining = op_string[1:i] + op_string[i+1:]',
+  'new': 'remaining = op_string[1:i] + op_string[i:]'},
+ {'id': 'c01-range-short',
+  'prop': 'C01',
+  'file': 'func.py',
+  'expect': 'R01b',
+  'old': 'for i in range(1, len(op_string)):',
+  'new': 'for i in range(1, len(op_string) - 1):'},
+ {'id': 'c01-prefilter-general',
+  'prop': 'C01',
+  'file': 'func.py',
+  'expect': 'R01c',
+  'old': 'n_annihilate = annihilate[space] + annihilate["general"]',
+  'new': 'n_annihilate = annihilate[space]'},
+ {'id': 'c01-prefilter-ge',
+  'prop': 'C01',
+  'file': 'func.py',
+  'expect': 'R01c',
+  'old': 'if n_create - n_annihilate > 0:',
+  'new': 'if n_create - n_annihilate >= 0:'},
+ {'id': 'c01-rules-name-only',
+  'prop': 'C01',
+  'file': 'rules.py',
+  'expect': 'R01d',
+  'old': '            if any(obj.name in self._forbidden_blocks\n'
+         '                   and obj.space in self._forbidden_blocks[obj.name]\n'
+         '                   for obj in term.objects):',
+  'new': '            if any(obj.name in self._forbidden_blocks\n                   for obj in term.objects):'},
+ {'id': 'c01-rules-all',
+  'prop': 'C01',
+  'file': 'rules.py',
+  'expect': 'R01d',
+  'old': '            if any(obj.name in self._forbidden_blocks',
+  'new': '            if all(obj.name in self._forbidden_blocks'},
+ {'id': 'c01-wicks-cpart-dropped',
+  'prop': 'C01',
+  'file': 'func.py',
+  'expect': 'R01d',
+  'old': 'result = (Mul(*c_part) * result).expand()',
+  'new': 'result = result.expand()'},
+ {'id': 'c01-f11-revert',
+  'prop': 'C01',
+  'file': 'func.py',
+  'expect': 'R01d',
+  'old': '    else:  # neither add, Mul, NO or Operator -> maybe a number or a tensor\n        result = expr',
+  'new': '    else:  # neither add, Mul, NO or Operator -> maybe a number or a tensor\n        return expr'},
+ {'id': 'c01-remove-by-value',
+  'prop': 'C01',
+  'file': 'func.py',
+  'expect': 'R01b',
+  'old': '            remaining = op_string[1:i] + op_string[i+1:]',
+  'new': '            remaining = list(op_string[1:])\n            remaining.remove(op_string[i])'},
+ {'id': 'c01-ok-rename',
+  'prop': 'C01',
+  'file': 'func.py',
+  'expect': None,
+  'old': '        c = _contraction(op_string[0], op_string[i])\n'
+         '        if c is S.Zero:\n'
+         '            continue\n'
+         '        if not i % 2:  # introduce -1 for swapping operators\n'
+         '            c *= S.NegativeOne',
+  'new': '        contr = _contraction(op_string[0], op_string[i])\n'
+         '        if contr is S.Zero:\n'
+         '            continue\n'
+         '        if i % 2 == 0:\n'
+         '            contr = contr * S.NegativeOne\n'
+         '        c = contr'},
+ {'id': 'c01-ok-table-reorder',
+  'prop': 'C01',
+  'file': 'func.py',
+  'expect': None,
+  'old': '        if space_p == "o" or space_q == "o":\n'
+         '            return S.Zero\n'
+         '        elif space_p == "v" or space_q == "v":\n'
+         '            return KroneckerDelta(p_idx, q_idx)',
+  'new': '        if "o" in (space_p, space_q):\n'
+         '            return S.Zero\n'
+         '        elif space_q == "v" or space_p == "v":\n'
+         '            return KroneckerDelta(q_idx, p_idx)'},
+ {'id': 'c01-ok-rules-loop',
+  'prop': 'C01',
+  'file': 'rules.py',
+  'expect': None,
+  'old': '            if any(obj.name in self._forbidden_blocks\n'
+         '                   and obj.space in self._forbidden_blocks[obj.name]\n'
+         '                   for obj in term.objects):\n'
+         '                continue\n'
+         '            res += term',
+  'new': '            forbidden = any(obj.name in self._forbidden_blocks\n'
+         '                            and obj.space in self._forbidden_blocks[obj.name]\n'
+         '                            for obj in term.objects)\n'
+         '            if not forbidden:\n'
+         '                res += term'},
+ {'id': 'c01-contraction-args-swapped',
+  'prop': 'C01',
+  'file': 'func.py',
+  'expect': ['R01b', 'R01e'],
+  'old': 'c = _contraction(op_string[0], op_string[i])',
+  'new': 'c = _contraction(op_string[i], op_string[0])'},
+ {'id': 'c01-opstring-reversed',
+  'prop': 'C01',
+  'file': 'func.py',
+  'expect': ['R01d', 'R01e'],
+  'old': '                op_string.append(factor)',
+  'new': '                op_string.insert(0, factor)'},
+ {'id': 'c01-fresh-index-unrestricted',
+  'prop': 'C01',
+  'file': 'func.py',
+  'expect': 'R01a',
+  'old': 'a = Indices().get_generic_indices(virt=1)[("virt", "")][0]',
+  'new': 'a = Indices().get_generic_indices(general=1)[("general", "")][0]'},
+ {'id': 'c01-fresh-delta-only',
+  'prop': 'C01',
+  'file': 'func.py',
+  'expect': 'R01a',
+  'old': '            return (KroneckerDelta(p_idx, q_idx) *\n                    KroneckerDelta(q_idx, i))',
+  'new': '            return KroneckerDelta(q_idx, i)'},
+ {'id': 'c01-zero-break',
+  'prop': 'C01',
+  'file': 'func.py',
+  'expect': 'R01b',
+  'old': '        if c is S.Zero:\n            continue',
+  'new': '        if c is S.Zero:\n            break'},
+ {'id': 'c01-e2e-prefilter-substring',
+  'prop': 'C01',
+  'file': 'func.py',
+  'expect': 'R01e',
+  'old': '    if not _has_fully_contracted_contribution(op_string):',
+  'new': '    if not _has_fully_contracted_contribution(op_string[1:]):'},
+ {'id': 'c01-rules-assumptions-lost',
+  'prop': 'C01',
+  'file': 'rules.py',
+  'expect': 'R01d',
+  'old': 'res = e.Expr(0, **expr.assumptions)',
+  'new': 'res = e.Expr(0)'},
+ {'id': 'c01-rules-inverted',
+  'prop': 'C01',
+  'file': 'rules.py',
+  'expect': 'R01d',
+  'old': '            if any(obj.name in self._forbidden_blocks',
+  'new': '            if not any(obj.name in self._forbidden_blocks'},
+ {'id': 'c01-rules-term-twice',
+  'prop': 'C01',
+  'file': 'rules.py',
+  'expect': 'R01d',
+  'old': '            res += term',
+  'new': '            res += term\n            res += term'},
+ {'id': 'c01-rules-guard-removed',
+  'prop': 'C01',
+  'file': 'rules.py',
+  'expect': 'R01d',
+  'old': '        if not isinstance(expr, e.Expr):\n'
+         '            raise TypeError(f"Expression needs to be provided as {e.Expr}")\n',
+  'new': ''},
+ {'id': 'c01-rules-empty-none-only',
+  'prop': 'C01',
+  'file': 'rules.py',
+  'expect': 'R01d',
+  'old': 'return not bool(self._forbidden_blocks)',
+  'new': 'return self._forbidden_blocks is None'},
+ {'id': 'c01-wicks-flag-ignored',
+  'prop': 'C01',
+  'file': 'func.py',
+  'expect': 'R01d',
+  'old': '            if simplify_kronecker_deltas:\n                # The contraction of two general',
+  'new': '            if True:\n                # The contraction of two general'},
+ {'id': 'c01-wicks-deltas-after-rules',
+  'prop': 'C01',
+  'file': 'func.py',
+  'expect': 'R01d',
+  'edits': [('            if simplify_kronecker_deltas:\n'
+             '                # The contraction of two general indices p and q gives\n'
+             '                # delta_{pq} * delta_{qi}, i.e., q occurs on two deltas and\n'
+             '                # the Einstein sum convention applied to the contracted term\n'
+             '                # identifies a target index q as contracted index.\n'
+             '                # -> additionally protect the target indices of the term\n'
+             '                #    before the contraction\n'
+             '                target = _indices_on_single_object(expr)\n'
+             '                result = Add(*[\n'
+             '                    evaluate_deltas(\n'
+             '                        term, target_idx=target + [\n'
+             '                            s for s in _indices_on_single_object(term)\n'
+             '                            if s not in target\n'
+             '                        ]\n'
+             '                    ) for term in Add.make_args(result)\n'
+             '                ])\n',
+             ''),
+            ('    return rules.apply(Expr(result)).sympy',
+             '    result = rules.apply(Expr(result)).sympy\n'
+             '    if simplify_kronecker_deltas:\n'
+             '        result = evaluate_deltas(result)\n'
+             '    return result')]},
+ {'id': 'c01-wicks-doit-plain',
+  'prop': 'C01',
+  'file': 'func.py',
+  'expect': 'R01d',
+  'old': 'expr = expr.doit(wicks=True).expand()',
+  'new': 'expr = expr.doit().expand()'},
+ {'id': 'c01-wicks-add-drops-rules',
+  'prop': 'C01',
+  'file': 'func.py',
+  'expect': 'R01d',
+  'old': '        return Add(*[wicks(term, rules=rules,\n'
+         '                           simplify_kronecker_deltas=simplify_kronecker_deltas)',
+  'new': '        return Add(*[wicks(term,\n                           simplify_kronecker_deltas=simplify_kronecker_deltas)'},
+ {'id': 'c01-wicks-add-skips-first',
+  'prop': 'C01',
+  'file': 'func.py',
+  'expect': 'R01d',
+  'old': '                     for term in expr.args])',
+  'new': '                     for term in expr.args[1:]])'},
+ {'id': 'c01-wicks-rules-real',
+  'prop': 'C01',
+  'file': 'func.py',
+  'expect': 'R01d',
+  'old': 'return rules.apply(Expr(result)).sympy',
+  'new': 'return rules.apply(Expr(result, real=True)).sympy'},
+ {'id': 'c01-wicks-target-idx',
+  'prop': 'C01',
+  'file': 'func.py',
+  'expect': 'R01e',
+  'old': '                target = _indices_on_single_object(expr)\n',
+  'new': '                target = []\n'},
+ {'id': 'c01-wicks-cpart-twice',
+  'prop': 'C01',
+  'file': 'func.py',
+  'expect': 'R01d',
+  'old': 'result = (Mul(*c_part) * result).expand()',
+  'new': 'result = (Mul(*c_part) * Mul(*c_part) * result).expand()'},
+ {'id': 'c01-ok-table-driven',
+  'prop': 'C01',
+  'file': 'func.py',
+  'expect': None,
+  'old': '    if isinstance(p, F) and isinstance(q, Fd):\n'
+         '        if space_p == "o" or space_q == "o":\n'
+         '            return S.Zero\n'
+         '        elif space_p == "v" or space_q == "v":\n'
+         '            return KroneckerDelta(p_idx, q_idx)\n'
+         '        else:\n'
+         '            # use a registered generic index: its name is unique, i.e., it\n'
+         '            # can not be confused with any other index when the result is\n'
+         '            # printed (and imported again)\n'
+         '            a = Indices().get_generic_indices(virt=1)[("virt", "")][0]\n'
+         '            return (KroneckerDelta(p_idx, q_idx) *\n'
+         '                    KroneckerDelta(q_idx, a))\n'
+         '    elif isinstance(p, Fd) and isinstance(q, F):\n'
+         '        if space_p == "v" or space_q == "v":\n'
+         '            return S.Zero\n'
+         '        elif space_p == "o" or space_q == "o":\n'
+         '            return KroneckerDelta(p_idx, q_idx)\n'
+         '        else:\n'
+         '            i = Indices().get_generic_indices(occ=1)[("occ", "")][0]\n'
+         '            return (KroneckerDelta(p_idx, q_idx) *\n'
+         '                    KroneckerDelta(q_idx, i))\n'
+         '    else:  # vanish if 2xAnnihilator or 2xCreator\n'
+         '        return S.Zero\n',
+  'new': '    table = {(True, False): ("o", "v", {"virt": 1}),\n'
+         '             (False, True): ("v", "o", {"occ": 1})}\n'
+         '    entry = table.get((isinstance(p, F), isinstance(q, F)))\n'
+         '    if entry is None or isinstance(p, F) == isinstance(p, Fd) or isinstance(q, F) == isinstance(q, Fd):\n'
+         '        return S.Zero\n'
+         '    killed, kept, request = entry\n'
+         '    spaces = (space_p, space_q)\n'
+         '    if killed in spaces:\n'
+         '        return S.Zero\n'
+         '    contraction = KroneckerDelta(p_idx, q_idx)\n'
+         '    if kept not in spaces:\n'
+         '        (extra,), = Indices().get_generic_indices(**request).values()\n'
+         '        contraction = contraction * KroneckerDelta(q_idx, extra)\n'
+         '    return contraction\n'},
+ {'id': 'c01-ok-delta-algebra',
+  'prop': 'C01',
+  'file': 'func.py',
+  'expect': None,
+  'old': '            return (KroneckerDelta(p_idx, q_idx) *\n                    KroneckerDelta(q_idx, a))',
+  'new': '            return (KroneckerDelta(a, p_idx) *\n                    KroneckerDelta(q_idx, p_idx))'},
+ {'id': 'c01-ok-running-sign',
+  'prop': 'C01',
+  'file': 'func.py',
+  'expect': None,
+  'old': '    for i in range(1, len(op_string)):\n'
+         '        c = _contraction(op_string[0], op_string[i])\n'
+         '        if c is S.Zero:\n'
+         '            continue\n'
+         '        if not i % 2:  # introduce -1 for swapping operators\n'
+         '            c *= S.NegativeOne\n',
+  'new': '    sign = S.NegativeOne\n'
+         '    for i in range(1, len(op_string)):\n'
+         '        sign = -sign\n'
+         '        c = sign * _contraction(op_string[0], op_string[i])\n'
+         '        if c is S.Zero:\n'
+         '            continue\n'},
+ {'id': 'c01-ok-remaining-filter',
+  'prop': 'C01',
+  'file': 'func.py',
+  'expect': None,
+  'old': 'remaining = op_string[1:i] + op_string[i+1:]',
+  'new': 'remaining = [op for pos, op in enumerate(op_string) if pos not in (0, i)]'},
+ {'id': 'c01-ok-running-sum',
+  'prop': 'C01',
+  'file': 'func.py',
+  'expect': None,
+  'edits': [('    result = []\n    for i in range(1, len(op_string)):',
+             '    result = S.Zero\n    for i in range(1, len(op_string)):'),
+            ('            result.append(c * _contract_operator_string(remaining))',
+             '            result += c * _contract_operator_string(remaining)'),
+            ('            result.append(c)\n    return Add(*result)', '            result += c\n    return result')]},
+ {'id': 'c01-ok-prefilter-keyed-counts',
+  'prop': 'C01',
+  'file': 'func.py',
+  'expect': None,
+  'old': '    create = {space: 0 for space in Indices.base.keys()}\n'
+         '    annihilate = {space: 0 for space in Indices.base.keys()}\n'
+         '    for op in op_string:\n'
+         '        if isinstance(op, Fd):\n'
+         '            counter = create\n'
+         '        else:\n'
+         '            counter = annihilate\n'
+         '        counter[op.args[0].space] += 1\n'
+         '    # check that we have a matching amount of creation and annihilation\n'
+         '    # operators\n'
+         '    for space, n_create in create.items():\n'
+         '        if space == "general":\n'
+         '            continue\n'
+         '        n_annihilate = annihilate[space] + annihilate["general"]\n'
+         '        if n_create - n_annihilate > 0:\n'
+         '            return False\n'
+         '    return True',
+  'new': '    counts = {}\n'
+         '    for op in op_string:\n'
+         '        key = (isinstance(op, Fd), op.args[0].space)\n'
+         '        counts[key] = counts.get(key, 0) + 1\n'
+         '    n_general = counts.get((False, "general"), 0)\n'
+         '    return all(counts.get((True, space), 0) <= counts.get((False, space), 0) + n_general\n'
+         '               for space in Indices.base if space != "general")'},
+ {'id': 'c01-ok-rules-pair-set',
+  'prop': 'C01',
+  'file': 'rules.py',
+  'expect': None,
+  'old': '        res = e.Expr(0, **expr.assumptions)\n'
+         '        for term in expr.terms:\n'
+         '            # remove the forbidden blocks of tensors\n'
+         '            if any(obj.name in self._forbidden_blocks\n'
+         '                   and obj.space in self._forbidden_blocks[obj.name]\n'
+         '                   for obj in term.objects):\n'
+         '                continue\n'
+         '            res += term\n'
+         '        return res',
+  'new': '        forbidden = {(name, block) for name, blocks in self._forbidden_blocks.items() for block in blocks}\n'
+         '        kept = [term for term in expr.terms\n'
+         '                if not any((obj.name, obj.space) in forbidden for obj in term.objects)]\n'
+         '        res = e.Expr(0, **expr.assumptions)\n'
+         '        for term in kept:\n'
+         '            res += term\n'
+         '        return res'},
+ {'id': 'c01-ok-is-empty-explicit',
+  'prop': 'C01',
+  'file': 'rules.py',
+  'expect': None,
+  'old': 'return not bool(self._forbidden_blocks)',
+  'new': 'return self._forbidden_blocks is None or len(self._forbidden_blocks) == 0'},
+ {'id': 'c01-ok-wicks-restructured',
+  'prop': 'C01',
+  'file': 'func.py',
+  'expect': None,
+  'edits': [('        return Add(*[wicks(term, rules=rules,\n'
+             '                           simplify_kronecker_deltas=simplify_kronecker_deltas)\n'
+             '                     for term in expr.args])',
+             '        total = S.Zero\n'
+             '        for term in expr.args:\n'
+             '            total += wicks(term, rules, simplify_kronecker_deltas)\n'
+             '        return total'),
+            ('        c_part = []\n'
+             '        op_string = []\n'
+             '        for factor in expr.args:\n'
+             '            if factor.is_commutative:\n'
+             '                c_part.append(factor)\n'
+             '            elif isinstance(factor, Pow) and \\\n'
+             '                    isinstance(factor.base, FermionicOperator):\n'
+             '                # a_p a_p = a^+_p a^+_p = 0\n'
+             '                return S.Zero\n'
+             '            else:\n'
+             '                op_string.append(factor)\n'
+             '\n',
+             '        if any(isinstance(factor, Pow) and isinstance(factor.base, FermionicOperator) for factor in expr.args):\n'
+             '            return S.Zero\n'
+             '        c_part = [factor for factor in expr.args if factor.is_commutative]\n'
+             '        op_string = [factor for factor in expr.args if not factor.is_commutative]\n'
+             '\n'),
+            ('result = (Mul(*c_part) * result).expand()', 'result = Mul(*c_part, result).expand()'),
+            ('    if rules is None:\n'
+             '        return result\n'
+             '    elif not isinstance(rules, Rules):\n'
+             '        raise TypeError(f"Rules needs to be of type {Rules}")\n'
+             '\n'
+             '    return rules.apply(Expr(result)).sympy',
+             '    if rules is not None:\n'
+             '        if not isinstance(rules, Rules):\n'
+             '            raise TypeError(f"Rules needs to be of type {Rules}")\n'
+             '        restricted = rules.apply(Expr(result))\n'
+             '        result = restricted.sympy\n'
+             '    return result')]},
+ {'id': 'c01-ok-full-space-names',
+  'prop': 'C01',
+  'file': 'func.py',
+  'expect': None,
+  'edits': [('    space_p, space_q = p_idx.space[0], q_idx.space[0]\n'
+             '    assert space_p in ["o", "v", "g"] and space_q in ["o", "v", "g"]',
+             '    space_p, space_q = {"occ": "o", "virt": "v", "general": "g"}[p_idx.space], q_idx.space[:1]\n'
+             '    assert {space_p, space_q} <= set("ovg")')]},
+ {'id': 'c01-ok-prefilter-dual',
+  'prop': 'C01',
+  'file': 'func.py',
+  'expect': None,
+  'old': '        if isinstance(op, Fd):\n            counter = create',
+  'new': '        if isinstance(op, F):\n            counter = create'},
+ {'id': 'c01-ok-zero-via-mul',
+  'prop': 'C01',
+  'file': 'func.py',
+  'expect': None,
+  'old': '        if c is S.Zero:\n'
+         '            continue\n'
+         '        if not i % 2:  # introduce -1 for swapping operators\n'
+         '            c *= S.NegativeOne',
+  'new': '        if not i % 2:  # introduce -1 for swapping operators\n'
+         '            c = -c\n'
+         '        if c == 0:\n'
+         '            continue'},
+ {'id': 'c01-ok-rules-try-for-else',
+  'prop': 'C01',
+  'file': 'rules.py',
+  'expect': None,
+  'old': '            if any(obj.name in self._forbidden_blocks\n'
+         '                   and obj.space in self._forbidden_blocks[obj.name]\n'
+         '                   for obj in term.objects):\n'
+         '                continue\n'
+         '            res += term',
+  'new': '            for obj in term.objects:\n'
+         '                try:\n'
+         '                    blocks = self._forbidden_blocks[obj.name]\n'
+         '                except KeyError:\n'
+         '                    continue\n'
+         '                if obj.space in blocks:\n'
+         '                    break\n'
+         '            else:\n'
+         '                res += term'},
+ {'id': 'c01-ok-wicks-early-zero',
+  'prop': 'C01',
+  'file': 'func.py',
+  'expect': None,
+  'old': '            result = _contract_operator_string(op_string)\n',
+  'new': '            result = _contract_operator_string(op_string)\n'
+         '            if result is S.Zero:\n'
+         '                return S.Zero\n'},
+ {'id': 'c01-ok-first-rest-while',
+  'prop': 'C01',
+  'file': 'func.py',
+  'expect': None,
+  'old': '    result = []\n    for i in range(1, len(op_string)):\n        c = _contraction(op_string[0], op_string[i])',
+  'new': '    result = []\n'
+         '    first, *rest = op_string\n'
+         '    i = 0\n'
+         '    while i < len(rest):\n'
+         '        i += 1\n'
+         '        c = _contraction(first, rest[i - 1])'},
+ {'id': 'c01-ok-table-redundant-projector',
+  'prop': 'C01',
+  'file': 'func.py',
+  'expect': None,
+  'old': '        elif space_p == "o" or space_q == "o":\n            return KroneckerDelta(p_idx, q_idx)',
+  'new': '        elif space_p == "o" and space_q == "o":\n            return KroneckerDelta(p_idx, q_idx)'},
+ {'id': 'c01-is-empty-never',
+  'prop': 'C01',
+  'file': 'rules.py',
+  'expect': 'R01d',
+  'old': 'return not bool(self._forbidden_blocks)',
+  'new': 'return False'},
+ {'id': 'c01-ok-wicks-single-op-general-branch',
+  'prop': 'C01',
+  'file': 'func.py',
+  'expect': None,
+  'old': '        elif n == 1:  # a single operator\n            return S.Zero\n',
+  'new': ''},
+ {'id': 'c01-wicks-bare-operator',
+  'prop': 'C01',
+  'file': 'func.py',
+  'expect': 'R01d',
+  'old': '    if isinstance(expr, (NO, FermionicOperator)):\n        return S.Zero\n',
+  'new': '    if isinstance(expr, NO):\n        return S.Zero\n'},
+ {'id': 'c01-prefilter-skips-first',
+  'prop': 'C01',
+  'file': 'func.py',
+  'expect': ['R01c', 'R01e'],
+  'old': '    for op in op_string:\n        if isinstance(op, Fd):',
+  'new': '    for op in op_string[1:]:\n        if isinstance(op, Fd):'},
+ {'id': 'c01-partition-swapped',
+  'prop': 'C01',
+  'file': 'func.py',
+  'expect': ['R01d', 'R01e'],
+  'old': '            if factor.is_commutative:\n                c_part.append(factor)',
+  'new': '            if not factor.is_commutative:\n                c_part.append(factor)'},
+ {'id': 'c01-prefilter-partner-particle-test',
+  'prop': 'C01',
+  'file': 'func.py',
+  'expect': ['R01c', 'R01e'],
+  'old': '        if n_create - n_annihilate > 0:\n            return False\n    return True\n',
+  'new': '        if n_create - n_annihilate > 0:\n'
+         '            return False\n'
+         '    # each operator needs at least one operator it can be contracted with\n'
+         '    return all(_has_contraction_partner(op_string, pos)\n'
+         '               for pos in range(len(op_string)))\n'
+         '\n'
+         '\n'
+         'def _has_contraction_partner(op_string, pos: int) -> bool:\n'
+         '    op = op_string[pos]\n'
+         '    for other_pos, other in enumerate(op_string):\n'
+         '        if type(other) is type(op):  # 2xCreator, 2xAnnihilator or op itself\n'
+         '            continue\n'
+         '        left, right = (op, other) if pos < other_pos else (other, op)\n'
+         '        spaces = {left.args[0].space, right.args[0].space}\n'
+         '        if isinstance(left, Fd):  # hole contraction: no virtual index\n'
+         '            if "virt" not in spaces:\n'
+         '                return True\n'
+         '        elif "virt" in spaces:  # particle contraction: no occupied index\n'
+         '            return True\n'
+         '    return False\n'},
+ {'id': 'c01-ok-prefilter-partner',
+  'prop': 'C01',
+  'file': 'func.py',
+  'expect': None,
+  'old': '        if n_create - n_annihilate > 0:\n            return False\n    return True\n',
+  'new': '        if n_create - n_annihilate > 0:\n'
+         '            return False\n'
+         '    # each operator needs at least one operator it can be contracted with\n'
+         '    return all(_has_contraction_partner(op_string, pos)\n'
+         '               for pos in range(len(op_string)))\n'
+         '\n'
+         '\n'
+         'def _has_contraction_partner(op_string, pos: int) -> bool:\n'
+         '    op = op_string[pos]\n'
+         '    for other_pos, other in enumerate(op_string):\n'
+         '        if type(other) is type(op):  # 2xCreator, 2xAnnihilator or op itself\n'
+         '            continue\n'
+         '        left, right = (op, other) if pos < other_pos else (other, op)\n'
+         '        spaces = {left.args[0].space, right.args[0].space}\n'
+         '        if isinstance(left, Fd):  # hole contraction: no virtual index\n'
+         '            if "virt" not in spaces:\n'
+         '                return True\n'
+         '        elif "occ" not in spaces:  # particle contraction: no occupied index\n'
+         '            return True\n'
+         '    return False\n'},
+ {'id': 'c01-rules-type-filter-forgets-nonsym',
+  'prop': 'C01',
+  'file': 'rules.py',
+  'expect': 'R01d',
+  'old': '            if any(obj.name in self._forbidden_blocks\n'
+         '                   and obj.space in self._forbidden_blocks[obj.name]\n'
+         '                   for obj in term.objects):\n'
+         '                continue\n'
+         '            res += term\n'
+         '        return res\n',
+  'new': '            if self._contains_forbidden_block(term):\n'
+         '                continue\n'
+         '            res += term\n'
+         '        return res\n'
+         '\n'
+         '    def _contains_forbidden_block(self, term) -> bool:\n'
+         '        for obj in term.objects:\n'
+         '            # only tensors have a block: skip prefactors, symbols and deltas\n'
+         '            if obj.type_as_str not in ("antisymtensor", "symtensor", "amplitude"):\n'
+         '                continue\n'
+         '            forbidden = self._forbidden_blocks.get(obj.name, None)\n'
+         '            if forbidden is not None and obj.space in forbidden:\n'
+         '                return True\n'
+         '        return False\n'},
+ {'id': 'c01-ok-rules-type-filter',
+  'prop': 'C01',
+  'file': 'rules.py',
+  'expect': None,
+  'old': '            if any(obj.name in self._forbidden_blocks\n'
+         '                   and obj.space in self._forbidden_blocks[obj.name]\n'
+         '                   for obj in term.objects):\n'
+         '                continue\n'
+         '            res += term\n'
+         '        return res\n',
+  'new': '            if self._contains_forbidden_block(term):\n'
+         '                continue\n'
+         '            res += term\n'
+         '        return res\n'
+         '\n'
+         '    def _contains_forbidden_block(self, term) -> bool:\n'
+         '        for obj in term.objects:\n'
+         '            # only tensors have a block: skip prefactors, symbols and deltas\n'
+         '            if obj.type_as_str not in ("antisymtensor", "symtensor", "amplitude", "nonsymtensor"):\n'
+         '                continue\n'
+         '            forbidden = self._forbidden_blocks.get(obj.name, None)\n'
+         '            if forbidden is not None and obj.space in forbidden:\n'
+         '                return True\n'
+         '        return False\n'},
+ {'id': 'c01-ok-rules-tensor-test-by-name',
+  'prop': 'C01',
+  'file': 'rules.py',
+  'expect': None,
+  'old': '            if any(obj.name in self._forbidden_blocks\n',
+  'new': '            if any(obj.name is not None and "tensor" in obj.type_as_str + "tensor" and obj.name in '
+         'self._forbidden_blocks\n'},
+ {'id': 'c01-ok-rules-name-via-base',
+  'prop': 'C01',
+  'file': 'rules.py',
+  'expect': None,
+  'old': '            if any(obj.name in self._forbidden_blocks\n'
+         '                   and obj.space in self._forbidden_blocks[obj.name]',
+  'new': '            if any(getattr(obj.base, "name", None) in self._forbidden_blocks\n'
+         '                   and obj.space in self._forbidden_blocks[getattr(obj.base, "name", None)]'},
+ {'id': 'c01-f29-revert',
+  'prop': 'C01',
+  'file': 'func.py',
+  'expect': 'R01e',
+  'old': '            if simplify_kronecker_deltas:\n'
+         '                # The contraction of two general indices p and q gives\n'
+         '                # delta_{pq} * delta_{qi}, i.e., q occurs on two deltas and\n'
+         '                # the Einstein sum convention applied to the contracted term\n'
+         '                # identifies a target index q as contracted index.\n'
+         '                # -> additionally protect the target indices of the term\n'
+         '                #    before the contraction\n'
+         '                target = _indices_on_single_object(expr)\n'
+         '                result = Add(*[\n'
+         '                    evaluate_deltas(\n'
+         '                        term, target_idx=target + [\n'
+         '                            s for s in _indices_on_single_object(term)\n'
+         '                            if s not in target\n'
+         '                        ]\n'
+         '                    ) for term in Add.make_args(result)\n'
+         '                ])\n',
+  'new': '            if simplify_kronecker_deltas:\n                result = evaluate_deltas(result)\n'},
+ {'id': 'c01-ok-f29-twin',
+  'prop': 'C01',
+  'file': 'func.py',
+  'expect': None,
+  'old': '            if simplify_kronecker_deltas:\n'
+         '                # The contraction of two general indices p and q gives\n'
+         '                # delta_{pq} * delta_{qi}, i.e., q occurs on two deltas and\n'
+         '                # the Einstein sum convention applied to the contracted term\n'
+         '                # identifies a target index q as contracted index.\n'
+         '                # -> additionally protect the target indices of the term\n'
+         '                #    before the contraction\n'
+         '                target = _indices_on_single_object(expr)\n'
+         '                result = Add(*[\n'
+         '                    evaluate_deltas(\n'
+         '                        term, target_idx=target + [\n'
+         '                            s for s in _indices_on_single_object(term)\n'
+         '                            if s not in target\n'
+         '                        ]\n'
+         '                    ) for term in Add.make_args(result)\n'
+         '                ])\n',
+  'new': '            if simplify_kronecker_deltas:\n'
+         '                protected = _indices_on_single_object(expr)\n'
+         '                evaluated = S.Zero\n'
+         '                for term in Add.make_args(result):\n'
+         '                    extra = [s for s in _indices_on_single_object(term)\n'
+         '                             if s not in protected]\n'
+         '                    evaluated += evaluate_deltas(term, protected + extra)\n'
+         '                result = evaluated\n'},
+ {'id': 'c01-f29-protects-contracted-term-only',
+  'prop': 'C01',
+  'file': 'func.py',
+  'expect': 'R01e',
+  'old': '                        term, target_idx=target + [\n'
+         '                            s for s in _indices_on_single_object(term)\n'
+         '                            if s not in target\n'
+         '                        ]\n',
+  'new': '                        term, target_idx=_indices_on_single_object(term)\n'},
+ {'id': 'c01-f34-revert',
+  'prop': 'C01',
+  'file': 'func.py',
+  'expect': 'R01a',
+  'edits': [('a = Indices().get_generic_indices(virt=1)[("virt", "")][0]', "a = Index('a', above_fermi=True)"),
+            ('i = Indices().get_generic_indices(occ=1)[("occ", "")][0]', "i = Index('i', below_fermi=True)")]},
+ {'id': 'c01-ok-f34-twin',
+  'prop': 'C01',
+  'file': 'func.py',
+  'expect': None,
+  'edits': [('a = Indices().get_generic_indices(virt=1)[("virt", "")][0]',
+             'a, = Indices().get_generic_indices(virt=1)[("virt", "")]'),
+            ('i = Indices().get_generic_indices(occ=1)[("occ", "")][0]',
+             'generic = Indices().get_generic_indices(**{"occ": 1})\n            i = generic["occ", ""][0]')]},
+ {'id': 'c01-f42-revert',
+  'prop': 'C01',
+  'file': 'func.py',
+  'expect': ['R01d', 'R01e'],
+  'edits': [('    # sympy collects adjacent identical operators in a power: a_p a_p = 0\n'
+             '    if isinstance(expr, Pow) and isinstance(expr.base, FermionicOperator):\n'
+             '        return S.Zero\n'
+             '\n',
+             ''),
+            ('            elif isinstance(factor, Pow) and \\\n'
+             '                    isinstance(factor.base, FermionicOperator):\n'
+             '                # a_p a_p = a^+_p a^+_p = 0\n'
+             '                return S.Zero\n',
+             '')]},
+ {'id': 'c01-f42-revert-top-only',
+  'prop': 'C01',
+  'file': 'func.py',
+  'expect': 'R01d',
+  'old': '    # sympy collects adjacent identical operators in a power: a_p a_p = 0\n'
+         '    if isinstance(expr, Pow) and isinstance(expr.base, FermionicOperator):\n'
+         '        return S.Zero\n'
+         '\n',
+  'new': ''},
+ {'id': 'c01-f42-revert-factor-only',
+  'prop': 'C01',
+  'file': 'func.py',
+  'expect': ['R01d', 'R01e'],
+  'old': '            elif isinstance(factor, Pow) and \\\n'
+         '                    isinstance(factor.base, FermionicOperator):\n'
+         '                # a_p a_p = a^+_p a^+_p = 0\n'
+         '                return S.Zero\n',
+  'new': ''},
+ {'id': 'c01-ok-f42-twin',
+  'prop': 'C01',
+  'file': 'func.py',
+  'expect': None,
+  'edits': [('    # sympy collects adjacent identical operators in a power: a_p a_p = 0\n'
+             '    if isinstance(expr, Pow) and isinstance(expr.base, FermionicOperator):\n'
+             '        return S.Zero\n'
+             '\n',
+             '    def operator_power(obj) -> bool:\n'
+             '        return isinstance(obj, Pow) and isinstance(obj.args[0], FermionicOperator)\n'
+             '\n'
+             '    if operator_power(expr):  # a_p a_p = 0\n'
+             '        return S.Zero\n'
+             '\n'),
+            ('            elif isinstance(factor, Pow) and \\\n'
+             '                    isinstance(factor.base, FermionicOperator):\n'
+             '                # a_p a_p = a^+_p a^+_p = 0\n'
+             '                return S.Zero\n',
+             '            elif operator_power(factor):\n                return S.Zero\n')]}]
